@@ -428,6 +428,69 @@ static void sweep_run(uint64_t c)
 }
 VF_SUITE(render_f32_sweep, sweep_count, sweep_run)
 
+// (c2) deterministic: every power of two 2^e (e = -149..127) with its +-1 and +-2 ulp neighbours, both signs, every precision
+//      -1..12 through igris_f32toa; the same values widened, their double-precision neighbours and the doubles just on either
+//      side of the rounding midpoints to the next floats through igris_f64toa / igris_ftoa. Extra cases: neighbours of
+//      2^64 * 10^k (where the renderer switches to "leading digits + zeros"), 2^24, 2^53, FLT_MAX, the binary32 overflow threshold.
+static const int N_POW2 = 127 + 149 + 1;
+static uint64_t pow2_count() { return N_POW2 + 20 + 1; }
+static void pow2_float(uint32_t centre)
+{
+    for (int d = -2; d <= 2; d++)
+    {
+        uint32_t b = centre + (uint32_t)d;
+        if ((b & 0x7f800000u) == 0x7f800000u)
+            continue; // stepped beyond FLT_MAX
+        for (int sgn = 0; sgn < 2; sgn++)
+        {
+            float f = f32_of(b | (uint32_t)sgn << 31);
+            double w = (double)f;
+            // doubles that the float renderer sees as f (or as a direct neighbour of f)
+            double up = (double)f32_of(b + 1 <= 0x7f7fffffu ? b + 1 : b), dn = (double)f32_of(b ? b - 1 : b);
+            if (sgn)
+                up = -up, dn = -dn;
+            double dd[7] = {w, nextafter(w, INFINITY), nextafter(w, -INFINITY), nextafter((w + up) / 2, w), nextafter((w + up) / 2, up),
+                            nextafter((w + dn) / 2, w), nextafter((w + dn) / 2, dn)};
+            for (int p = -1; p <= 12; p++)
+            {
+                render_f32(f, p, (p & 3) == 0);
+                for (int i = 0; i < 7; i++)
+                {
+                    render_f64(R_F64, dd[i], p);
+                    if (i < 3)
+                        render_f64(R_FTOA, dd[i], p);
+                }
+            }
+        }
+    }
+    vf::count_bulk(5 * 2 * 14 * 11, 5 * 2 * 14 * 11);
+}
+static void pow2_run(uint64_t c)
+{
+    if (c < (uint64_t)N_POW2)
+    {
+        int e = (int)c - 149;
+        pow2_float(bits_of(ldexpf(1.0f, e)));
+        if (e == 64)
+            vf::sample("pow2: 2^64 = 0x%08x and its +-2 ulp neighbours, both signs, precisions -1..12, f32toa/f64toa/ftoa", bits_of(ldexpf(1.0f, e)));
+    }
+    else if (c < (uint64_t)N_POW2 + 20)
+    {
+        // 2^64 * 10^k, k = 0..19 (k = 19 is beyond FLT_MAX for the upper neighbours only)
+        double v = 18446744073709551616.0 * pow(10.0, (double)(c - N_POW2));
+        if (v < (double)FLT_MAX)
+            pow2_float(bits_of((float)v));
+    }
+    else
+    {
+        static const double K[] = {16777216.0, 9007199254740992.0, 2147483648.0, 4294967296.0, 1e10, 1e19, 1e20, 1e30, 1e38, 3.4e38, (double)FLT_MAX, 1.0, 10.0, 0.1};
+        for (double v : K)
+            pow2_float(bits_of((float)v));
+    }
+    VF_OK("powers of two: 2^e and its +-1, +-2 ulp neighbours, every precision, float and double entry points");
+}
+VF_SUITE(render_pow2, pow2_count, pow2_run)
+
 // ---------------------------------------------------------------- parse side
 struct Lit
 {
